@@ -27,6 +27,67 @@ type gen struct {
 	hist     map[string][]uint64 // entity key ↦ ModifyIndexes it has had in world s
 	nontriv  bool
 	caseTags []string
+	log      []logged // every command applied so far (replayed into a replica by the per-op monitor)
+	pending  uint64   // raft index reserved for the next command (0 = draw one)
+}
+
+type logged struct {
+	c   cmd
+	idx uint64
+}
+
+// reserveIdx fixes the raft index of the next command in advance, so that a transaction can
+// name the index its own earlier operations are going to stamp.
+func (g *gen) reserveIdx() uint64 {
+	if g.pending == 0 {
+		g.pending = g.nextIdx()
+	}
+	return g.pending
+}
+
+// opVerdict: what the per-op monitor expects of one operation of a transaction.
+type opVerdict struct {
+	cond, matched, singleOK bool
+	typ                     string
+	pre                     ent
+	cidx                    uint64
+}
+
+// judgeOps replays the history of world s into a fresh replica store and walks the operations of
+// a transaction one at a time: each conditional verb is judged (by the documented rule, on the
+// entity read through the public API) against the state left by the operations before it.
+func (g *gen) judgeOps(ops []top, idx uint64) []opVerdict {
+	rep := state.NewStateStore(nil)
+	for _, l := range g.log {
+		l.c.store(rep, l.idx)
+	}
+	out := make([]opVerdict, len(ops))
+	for k, op := range ops {
+		if op.oc != nil {
+			pre := op.oc.read(rep)
+			out[k] = opVerdict{cond: true, matched: wantMatch(op.oc.rule, pre, op.oc.cidx), typ: op.oc.typ, pre: pre, cidx: op.oc.cidx}
+		}
+		_, errs := rep.TxnRW(idx, structs.TxnOps{op.mk()}) // advance the replica by this op alone
+		out[k].singleOK = len(errs) == 0
+	}
+	return out
+}
+
+// txnErrIndexes parses "txn-err:0;stale,2;missing-node".
+func txnErrIndexes(res string) map[int]string {
+	m := map[int]string{}
+	if !strings.HasPrefix(res, "txn-err:") {
+		return m
+	}
+	for _, part := range strings.Split(strings.TrimPrefix(res, "txn-err:"), ",") {
+		f := strings.SplitN(part, ";", 2)
+		var k int
+		if len(f) == 2 {
+			fmt.Sscan(f[0], &k)
+			m[k] = f[1]
+		}
+	}
+	return m
 }
 
 func newGen(r *hx.RNG) *gen {
@@ -56,7 +117,16 @@ func (g *gen) nextIdx() uint64 {
 // exec runs one command in both worlds at the same raft index, writes the protocol lines and
 // runs the monitors on each world separately.
 func (g *gen) exec(c cmd) (resS, resF string) {
-	idx := g.nextIdx()
+	idx := g.pending
+	g.pending = 0
+	if idx == 0 {
+		idx = g.nextIdx()
+	}
+	var verdicts []opVerdict
+	if c.multi && len(c.tops) > 0 {
+		verdicts = g.judgeOps(c.tops, idx)
+	}
+	defer func() { g.log = append(g.log, logged{c, idx}) }()
 	for _, w := range []*world{g.ws, g.wf} {
 		st := w.store()
 		line := w.tag + " " + c.line(idx)
@@ -99,6 +169,22 @@ func (g *gen) exec(c cmd) (resS, resF string) {
 			}
 			if sig, desc := cd.post(pre, st, idx, res, unchanged); sig != "" {
 				run.Violate(sig, fmt.Sprintf("world %s, op %q: %s", w.tag, line, desc), append([]string(nil), g.ops...))
+			}
+		}
+		if verdicts != nil {
+			failed := txnErrIndexes(res)
+			for k, v := range verdicts {
+				if !v.cond {
+					continue
+				}
+				_, refused := failed[k]
+				run.Tag(fmt.Sprintf("txn-op:%s:matched=%v,refused=%v", v.typ, v.matched, refused))
+				switch {
+				case !v.matched && !refused:
+					run.Violate("txn-op:"+v.typ+":reported-without-match", fmt.Sprintf("world %s, op #%d of %q: index %d does not match the entity as left by the earlier operations (%+v) but the operation was not refused (%s)", w.tag, k, line, v.cidx, v.pre, res), append([]string(nil), g.ops...))
+				case v.matched && v.singleOK && refused:
+					run.Violate("txn-op:"+v.typ+":matched-but-refused", fmt.Sprintf("world %s, op #%d of %q: index %d matches the entity as left by the earlier operations (%+v) and the write is admissible, yet it was refused (%s)", w.tag, k, line, v.cidx, v.pre, res), append([]string(nil), g.ops...))
+				}
 			}
 		}
 		if c.multi && (strings.HasPrefix(res, "txn-err") || strings.HasPrefix(res, "err:")) {
@@ -173,6 +259,7 @@ var kvVals = []string{"v1", "v2", ""}
 var addrs = []string{"10.0.0.1", "10.0.0.2"}
 var ports = []int{80, 8080}
 var outs = []string{"ok", "warn"}
+var chkStatuses = []string{"passing", "critical"}
 var cfgVals = []string{"1", "2"}
 var statuses = []string{"", "True", "False"}
 var provs = []string{"consul", "vault"}
@@ -252,7 +339,7 @@ func tagNodeID(st *state.Store, n, id string) {
 
 func nodeDrivers(n string) []drv {
 	read := readNode(n)
-	other := map[string]string{"n1": "n2", "n2": "n1"}[n]
+	other := map[string]string{"n1": "n2", "n2": "n1", "N1": "n2"}[n]
 	set := func(i int) cmd { a, id := nodeContent(i); return txnCmd(tNodeSet(n, a, id)) }
 	del := func() cmd { return txnCmd(tNodeDel(n, hx.Pick(seedRNG, nodeIDs))) }
 	key := "node/" + n
@@ -265,7 +352,7 @@ func nodeDrivers(n string) []drv {
 		}
 		if read(g.ws.store()).present && g.r.Chance(30) {
 			run.Tag("node:serf-health-registered")
-			g.exec(txnCmd(tChkSet(n, "serfHealth", "", "ok")))
+			g.exec(txnCmd(tChkSet(n, "serfHealth", "", "ok", chkStatuses[g.r.Intn(2)])))
 		}
 	}
 	return []drv{
@@ -320,13 +407,13 @@ func chkDrivers(n, id, svcID string) []drv {
 			g.exec(txnCmd(tSvcSet(n, svcID, ports[0])))
 		}
 	}
-	set := func(i int) cmd { return txnCmd(tChkSet(n, id, svcID, outs[i%2])) }
+	set := func(i int) cmd { return txnCmd(tChkSet(n, id, svcID, outs[i%2], chkStatuses[(i/2)%2])) }
 	del := func() cmd { return txnCmd(tChkDel(n, id)) }
 	key := "chk/" + n + "/" + id
 	return []drv{
-		{typ: "checkCas", key: key, read: read, prereq: pre, set: set, del: del, contents: 2, cas: func(i int, c uint64) cmd {
-			return single(tChkCas(n, id, svcID, outs[i%2], c), entityCond(entSpec{typ: "checkCas", rule: "set", cidx: c, read: read, idem: true,
-				want: func(ent) (string, string) { return svcID + "/" + outs[i%2], "" },
+		{typ: "checkCas", key: key, read: read, prereq: pre, set: set, del: del, contents: 4, cas: func(i int, c uint64) cmd {
+			return single(tChkCas(n, id, svcID, outs[i%2], chkStatuses[(i/2)%2], c), entityCond(entSpec{typ: "checkCas", rule: "set", cidx: c, read: read, idem: true,
+				want: func(ent) (string, string) { return svcID + "/" + outs[i%2] + "/" + chkStatuses[(i/2)%2], "" },
 				qual: func(st *state.Store) string {
 					if !readNode(n)(st).present || (svcID != "" && !readSvc(n, svcID)(st).present) {
 						return "write-error-swallowed" // shape of the defect repaired by 3d11035
@@ -334,16 +421,46 @@ func chkDrivers(n, id, svcID string) []drv {
 					return ""
 				}}))
 		}},
-		{typ: "checkDeleteCas", key: key, read: read, prereq: pre, set: set, del: del, contents: 2, cas: func(_ int, c uint64) cmd {
+		{typ: "checkDeleteCas", key: key, read: read, prereq: pre, set: set, del: del, contents: 4, cas: func(_ int, c uint64) cmd {
 			return single(tChkDelCas(n, id, c), entityCond(entSpec{typ: "checkDeleteCas", rule: "del", cidx: c, read: read, isDel: true}))
 		}},
 	}
 }
 
+// cfgRefusal restates, for the monitor, the documented admission rules of the generated kinds.
+func cfgRefusal(st *state.Store, kind, name string, flag bool) string {
+	present := func(k, n string) bool { return readCfg(k, n)(st).present }
+	switch kind {
+	case structs.ServiceDefaults:
+		if !flag {
+			return ""
+		}
+		if cur := readCfg(kind, name)(st); cur.present && strings.HasSuffix(cur.content, "|flag") {
+			return "" // already permissive: not a change
+		}
+		if mesh := readCfg(structs.MeshConfig, structs.MeshConfigMesh)(st); mesh.present && strings.HasSuffix(mesh.content, "|flag") {
+			return ""
+		}
+		return "permissive-mtls-not-allowed"
+	case structs.IngressGateway:
+		if present(structs.TerminatingGateway, name) {
+			return "gateway-name-clash"
+		}
+	case structs.TerminatingGateway:
+		if present(structs.IngressGateway, name) {
+			return "gateway-name-clash"
+		}
+	case structs.ServiceSplitter:
+		return "splitter-on-tcp-service"
+	}
+	return ""
+}
+
 func cfgDrivers(kind, name string) []drv {
 	read := readCfg(kind, name)
 	ctl := isControlledKind(kind)
-	set := func(i int) cmd { return cfgSetCmd(kind, name, cfgVals[i%2]) }
+	flagOf := func(i int) bool { return cfgHasFlag(kind) && (i/6)%2 == 1 }
+	set := func(i int) cmd { return cfgSetCmd(kind, name, cfgVals[i%2], false) }
 	del := func() cmd { return cfgDelCmd(kind, name) }
 	key := "cfg/" + kind + "/" + name
 	stOf := func(i int) string {
@@ -352,34 +469,66 @@ func cfgDrivers(kind, name string) []drv {
 		}
 		return statuses[(i/2)%3]
 	}
+	valOf := func(cur ent) string { return strings.TrimSuffix(cur.content, "|flag") }
 	var seed func(g *gen)
-	if ctl {
+	switch {
+	case ctl:
 		// give the stored entry a non-default status through a matching status-cas
 		seed = func(g *gen) {
 			if cur := read(g.ws.store()); cur.present && g.r.Chance(65) {
 				run.Tag("cfg:stored-status-seeded")
-				g.exec(cfgCasCmd(true, kind, name, cur.content, statuses[1+g.r.Intn(2)], cur.modify))
+				g.exec(cfgCasCmd(true, kind, name, valOf(cur), statuses[1+g.r.Intn(2)], false, cur.modify))
+			}
+		}
+	case kind == structs.ServiceDefaults:
+		// sometimes the mesh entry allows permissive mutual TLS, sometimes the entry already is permissive
+		seed = func(g *gen) {
+			if g.r.Chance(50) {
+				allow := g.r.Chance(70)
+				run.Tag(fmt.Sprintf("cfg:mesh-entry-allows-permissive=%v", allow))
+				g.exec(cfgSetCmd(structs.MeshConfig, structs.MeshConfigMesh, "1", allow))
+				if cur := read(g.ws.store()); allow && cur.present && g.r.Chance(40) {
+					g.exec(cfgCasCmd(false, kind, name, valOf(cur), "", true, cur.modify))
+					if g.r.Bool() {
+						g.exec(cfgDelCmd(structs.MeshConfig, structs.MeshConfigMesh)) // stays permissive without consent
+					}
+				}
+			}
+		}
+	case kind == structs.IngressGateway || kind == structs.TerminatingGateway:
+		otherKind := map[string]string{structs.IngressGateway: structs.TerminatingGateway, structs.TerminatingGateway: structs.IngressGateway}[kind]
+		seed = func(g *gen) {
+			if !read(g.ws.store()).present && g.r.Chance(60) {
+				run.Tag("cfg:other-gateway-kind-holds-the-name")
+				g.exec(cfgSetCmd(otherKind, name, "1", false))
 			}
 		}
 	}
+	contents := 6
+	if cfgHasFlag(kind) {
+		contents = 12
+	}
+	refusal := func(i int) func(st *state.Store) string {
+		return func(st *state.Store) string { return cfgRefusal(st, kind, name, flagOf(i)) }
+	}
 	return []drv{
-		{typ: "configCas", key: key, read: read, set: set, del: del, contents: 6, seed: seed, cas: func(i int, c uint64) cmd {
-			x := cfgCasCmd(false, kind, name, cfgVals[i%2], stOf(i), c)
-			x.cond = entityCond(entSpec{typ: "configCas", rule: "set", cidx: c, read: read, want: func(pre ent) (string, string) {
+		{typ: "configCas", key: key, read: read, set: set, del: del, contents: contents, seed: seed, cas: func(i int, c uint64) cmd {
+			x := cfgCasCmd(false, kind, name, cfgVals[i%2], stOf(i), flagOf(i), c)
+			x.cond = entityCond(entSpec{typ: "configCas", rule: "set", cidx: c, read: read, inadmissible: refusal(i), want: func(pre ent) (string, string) {
 				if ctl && pre.present {
-					return cfgVals[i%2], pre.aux // a plain upsert keeps the stored status
+					return cfgContentStr(cfgVals[i%2], flagOf(i)), pre.aux // a plain upsert keeps the stored status
 				}
-				return cfgVals[i%2], ""
+				return cfgContentStr(cfgVals[i%2], flagOf(i)), ""
 			}})
 			return x
 		}},
-		{typ: "configStatusCas", key: key, read: read, set: set, del: del, contents: 6, seed: seed, cas: func(i int, c uint64) cmd {
-			x := cfgCasCmd(true, kind, name, cfgVals[i%2], stOf(i), c)
-			x.cond = entityCond(entSpec{typ: "configStatusCas", rule: "set", cidx: c, read: read,
-				want: func(ent) (string, string) { return cfgVals[i%2], stOf(i) }})
+		{typ: "configStatusCas", key: key, read: read, set: set, del: del, contents: contents, seed: seed, cas: func(i int, c uint64) cmd {
+			x := cfgCasCmd(true, kind, name, cfgVals[i%2], stOf(i), flagOf(i), c)
+			x.cond = entityCond(entSpec{typ: "configStatusCas", rule: "set", cidx: c, read: read, inadmissible: refusal(i),
+				want: func(ent) (string, string) { return cfgContentStr(cfgVals[i%2], flagOf(i)), stOf(i) }})
 			return x
 		}},
-		{typ: "configDeleteCas", key: key, read: read, set: set, del: del, contents: 6, seed: seed, cas: func(_ int, c uint64) cmd {
+		{typ: "configDeleteCas", key: key, read: read, set: set, del: del, contents: contents, seed: seed, cas: func(_ int, c uint64) cmd {
 			x := cfgDelCasCmd(kind, name, c)
 			x.cond = entityCond(entSpec{typ: "configDeleteCas", rule: "del", cidx: c, read: read, isDel: true})
 			return x
@@ -432,9 +581,11 @@ func allDrivers() []drv {
 	for _, k := range []string{"a", "a/b", "b"} {
 		ds = append(ds, kvDrivers(k)...)
 	}
-	for _, n := range []string{"n1", "n2"} {
+	for _, n := range []string{"n1", "n2", "N1"} { // "N1" collides with "n1": one registration, two spellings
 		ds = append(ds, nodeDrivers(n)...)
 	}
+	ds = append(ds, svcDrivers("N1", "api")...)
+	ds = append(ds, chkDrivers("N1", "c1", "")...)
 	ds = append(ds, svcDrivers("n1", "web")...)
 	ds = append(ds, svcDrivers("n1", "api")...)
 	ds = append(ds, svcDrivers("n2", "web")...)
@@ -445,6 +596,10 @@ func allDrivers() []drv {
 	ds = append(ds, cfgDrivers(structs.ServiceDefaults, "web")...)
 	ds = append(ds, cfgDrivers(structs.ServiceDefaults, "api")...)
 	ds = append(ds, cfgDrivers(structs.TCPRoute, "r1")...)
+	ds = append(ds, cfgDrivers(structs.MeshConfig, structs.MeshConfigMesh)...)
+	ds = append(ds, cfgDrivers(structs.IngressGateway, "gw")...)
+	ds = append(ds, cfgDrivers(structs.TerminatingGateway, "gw")...)
+	ds = append(ds, cfgDrivers(structs.ServiceSplitter, "web")...)
 	ds = append(ds, caDriver(), apDriver())
 	for _, a := range tokAcc {
 		ds = append(ds, tokDriver(a))
@@ -518,9 +673,9 @@ func storedEquals(d drv, i int, cur ent) bool {
 	case strings.HasPrefix(d.key, "svc/"):
 		return cur.content == fmt.Sprint(ports[i%2])
 	case strings.HasPrefix(d.key, "chk/"):
-		return strings.HasSuffix(cur.content, "/"+outs[i%2])
+		return strings.HasSuffix(cur.content, "/"+outs[i%2]+"/"+chkStatuses[(i/2)%2])
 	case strings.HasPrefix(d.key, "cfg/"):
-		return cur.content == cfgVals[i%2]
+		return strings.TrimSuffix(cur.content, "|flag") == cfgVals[i%2]
 	case d.key == "ca":
 		return cur.content == provs[i%2]
 	case d.key == "ap":
